@@ -115,31 +115,48 @@ def settle (pool : Pool) (p : Pledge) : Pledge :=
     { p with reward := p.reward + (Dec.mulInt pool.accRewardPerByte p.totalStorage - p.rewardDebt) }
   else p
 
-def nodeAddVstorage (e : Env) (s : State) (creator : Addr) (size : Nat) : TxM State := do
-  if (s.getNode creator).isNone then throw "node not found"
-  let some pool := s.pool | throw "pool not found"
-  let amount := addAmount size
-  let sz := addSize amount
-  if amount < 0 then throw "negative coin"
-  let s ← s.sendLit creator e.modNode amount
-  let pledge := match s.getPledge creator with
+/-- the pledge record after adding capacity: book the coins, settle pending reward on the old
+    capacity, then raise the capacity and re-base the reward debt -/
+def addvPledge (pool : Pool) (old : Option Pledge) (creator : Addr) (amount sz : Int) : Pledge :=
+  let pledge := match old with
     | none => { creator := creator, totalStorage := 0, usedStorage := 0, totalStoragePledged := amount,
                 totalShardPledged := 0, reward := 0, rewardDebt := 0 }
     | some p => { p with totalStoragePledged := p.totalStoragePledged + amount }
   let pledge := settle pool pledge
   let pledge := { pledge with totalStorage := pledge.totalStorage + sz }
-  let pledge := { pledge with rewardDebt := Dec.mulInt pool.accRewardPerByte pledge.totalStorage }
-  let pool := { pool with totalPledged := pool.totalPledged + amount, totalStorage := pool.totalStorage + sz }
-  let s ← (if pledge.totalStorage ≥ s.params.vstorageThreshold then do
-      let some node := s.getNode creator | throw "node not found"
+  { pledge with rewardDebt := Dec.mulInt pool.accRewardPerByte pledge.totalStorage }
+
+/-- promotion to super node when the new capacity reaches the threshold -/
+def promoteIfDue (e : Env) (s : State) (creator : Addr) (pledge : Pledge) : TxM State :=
+  if pledge.totalStorage ≥ s.params.vstorageThreshold then
+    match s.getNode creator with
+    | none => throw "node not found"
+    | some node =>
       if node.role = 0 ∧ node.status &&& ST_SUPER_REQ = ST_SUPER_REQ then
-        match (← checkNodeShare s node) with
-        | some n' => pure (s.setNode e n')
-        | none => pure s
+        match checkNodeShare s node with
+        | .error m => throw m
+        | .ok (some n') => pure (s.setNode e n')
+        | .ok none => pure s
       else pure s
-    else pure s : TxM State)
-  let s := s.setPledge pledge
-  pure { s with pool := some pool }
+  else pure s
+
+def nodeAddVstorage (e : Env) (s : State) (creator : Addr) (size : Nat) : TxM State :=
+  if (s.getNode creator).isNone then throw "node not found" else
+  match s.pool with
+  | none => throw "pool not found"
+  | some pool =>
+    let amount := addAmount size
+    let sz := addSize amount
+    if amount < 0 then throw "negative coin" else
+    match s.sendLit creator e.modNode amount with
+    | .error m => throw m
+    | .ok s1 =>
+      let pledge := addvPledge pool (s1.getPledge creator) creator amount sz
+      match promoteIfDue e s1 creator pledge with
+      | .error m => throw m
+      | .ok s2 =>
+        pure { (s2.setPledge pledge) with
+               pool := some { pool with totalPledged := pool.totalPledged + amount, totalStorage := pool.totalStorage + sz } }
 
 /-- the checks of RemoveVstorage: what is released (coins) and debited (bytes) -/
 structure RemvPlan where
@@ -169,17 +186,26 @@ def remvPledge (pl : RemvPlan) : Pledge :=
   let p := { p with totalStorage := p.totalStorage - pl.sz }
   { p with rewardDebt := Dec.mulInt pl.pool.accRewardPerByte p.totalStorage }
 
-def nodeRemoveVstorage (e : Env) (s : State) (creator : Addr) (size : Nat) : TxM State := do
-  let pl ← remvPlan s creator size
-  let s ← s.send e.modNode creator pl.amount
-  let pledge := remvPledge pl
-  let pool := { pl.pool with totalPledged := pl.pool.totalPledged - pl.amount, totalStorage := pl.pool.totalStorage - pl.sz }
-  let s ← (if pledge.totalStorage < s.params.vstorageThreshold then do
-      let some node := s.getNode creator | throw "node not found"
-      if node.role = 1 then pure (s.setNode e { node with role := 0 }) else pure s
-    else pure s : TxM State)
-  let s := s.setPledge pledge
-  pure { s with pool := some pool }
+/-- demotion of a super node whose capacity falls below the threshold -/
+def demoteIfDue (e : Env) (s : State) (creator : Addr) (pledge : Pledge) : TxM State :=
+  if pledge.totalStorage < s.params.vstorageThreshold then
+    match s.getNode creator with
+    | none => throw "node not found"
+    | some node => if node.role = 1 then pure (s.setNode e { node with role := 0 }) else pure s
+  else pure s
+
+def nodeRemoveVstorage (e : Env) (s : State) (creator : Addr) (size : Nat) : TxM State :=
+  match remvPlan s creator size with
+  | .error m => throw m
+  | .ok pl =>
+    match s.send e.modNode creator pl.amount with
+    | .error m => throw m
+    | .ok s1 =>
+      match demoteIfDue e s1 creator (remvPledge pl) with
+      | .error m => throw m
+      | .ok s2 =>
+        pure { (s2.setPledge (remvPledge pl)) with
+               pool := some { pl.pool with totalPledged := pl.pool.totalPledged - pl.amount, totalStorage := pl.pool.totalStorage - pl.sz } }
 
 /-- `RepayPledgeDebt` over a list of coin amounts; returns the reduced amounts. -/
 def repayLoop (debt : Int) : List Int → List Int × Option Int
